@@ -9,11 +9,23 @@ import (
 	"github.com/Shopify/sarama"
 )
 
-const Topic = "t"
+// TopicNames: topic index -> name. The second name is the first one followed by a digit on purpose (anything that
+// keys per-partition state by concatenating topic and partition must keep them apart).
+var TopicNames = []string{"t", "t1"}
+
+func TopicIndex(name string) int {
+	for i, n := range TopicNames {
+		if n == name {
+			return i
+		}
+	}
+	return -1
+}
 
 // MsgSpec is one message the application submits.
 type MsgSpec struct {
 	ID        int64 `json:"id"`
+	Topic     int   `json:"topic,omitempty"` // index into TopicNames
 	Partition int32 `json:"partition"`
 	Wave      int   `json:"wave,omitempty"`
 	Pad       int   `json:"pad,omitempty"`
@@ -30,7 +42,8 @@ type Step struct {
 type Scenario struct {
 	Name        string     `json:"name"`
 	Brokers     int        `json:"brokers"`
-	Partitions  int        `json:"partitions"`
+	Partitions  int        `json:"partitions"`            // of topic "t"
+	Partitions1 int        `json:"partitions1,omitempty"` // of topic "t1" (0: the topic does not exist)
 	RetryMax    int        `json:"retrymax"`
 	FlushMsgs   int        `json:"flushmsgs"`   // Flush.Messages (0: flush as soon as possible)
 	FlushFreqMs int        `json:"flushfreqms"` // Flush.Frequency (0: none)
@@ -51,11 +64,12 @@ func (m *meta) VerifID() int64 { return m.id }
 
 // Outcome is one terminal event the application received.
 type Outcome struct {
-	ID        int64 `json:"id"`
-	Success   bool  `json:"success"`
-	Err       int   `json:"err,omitempty"`
-	Partition int32 `json:"partition"`
-	Offset    int64 `json:"offset"`
+	ID        int64  `json:"id"`
+	Success   bool   `json:"success"`
+	Topic     string `json:"topic"`
+	Err       int    `json:"err,omitempty"`
+	Partition int32  `json:"partition"`
+	Offset    int64  `json:"offset"`
 }
 
 // Result is everything observed in one run.
@@ -104,7 +118,7 @@ func message(s MsgSpec, run *Result) *sarama.ProducerMessage {
 	if s.Pad > 0 {
 		val += ":" + strings.Repeat("p", s.Pad)
 	}
-	return &sarama.ProducerMessage{Topic: Topic, Partition: s.Partition, Value: sarama.StringEncoder(val), Metadata: &meta{id: s.ID, run: run}}
+	return &sarama.ProducerMessage{Topic: TopicNames[s.Topic], Partition: s.Partition, Value: sarama.StringEncoder(val), Metadata: &meta{id: s.ID, run: run}}
 }
 
 const closeBound = 3 * time.Second
@@ -115,7 +129,11 @@ const stepBound = 1500 * time.Millisecond
 func Run(sc *Scenario) *Result {
 	t0 := time.Now()
 	res := &Result{Scenario: sc}
-	cl := NewCluster(sc.Brokers, map[string]int{Topic: sc.Partitions}, sc.Script)
+	topics := map[string]int{TopicNames[0]: sc.Partitions}
+	if sc.Partitions1 > 0 {
+		topics[TopicNames[1]] = sc.Partitions1
+	}
+	cl := NewCluster(sc.Brokers, topics, sc.Script)
 	defer cl.Close()
 	res.PID = cl.PID
 	cfg := sc.Config()
@@ -147,7 +165,7 @@ func Run(sc *Scenario) *Result {
 	go func() {
 		for m := range prod.Successes() {
 			omu.Lock()
-			succ = append(succ, Outcome{ID: idOf(m), Success: true, Partition: m.Partition, Offset: m.Offset})
+			succ = append(succ, Outcome{ID: idOf(m), Success: true, Topic: m.Topic, Partition: m.Partition, Offset: m.Offset})
 			omu.Unlock()
 		}
 		close(closedS)
@@ -155,7 +173,7 @@ func Run(sc *Scenario) *Result {
 	go func() {
 		for e := range prod.Errors() {
 			omu.Lock()
-			errs = append(errs, Outcome{ID: idOf(e.Msg), Err: sarama.VerifProdErrClass(e.Err), Partition: e.Msg.Partition})
+			errs = append(errs, Outcome{ID: idOf(e.Msg), Err: sarama.VerifProdErrClass(e.Err), Topic: e.Msg.Topic, Partition: e.Msg.Partition})
 			omu.Unlock()
 		}
 		close(closedE)
